@@ -400,3 +400,7 @@ pub enum CoreHint {
     /// Multiple ASes exist to route in this ISD
     Multiple,
 }
+
+#[cfg(kani)]
+#[path = "/verif/kani/sciparse/c01_plan.rs"]
+mod verif_c01_plan;
